@@ -1886,7 +1886,10 @@ def truncation_run(kind, tier, only=None):
             def get():
                 return open(path, "rb").read() if kind == "fs" else client.store[mkey]
 
-            variants = [(f"truncated@{k}", data[:k]) for k in range(len(data))] + damaged_entries(data)
+            # quick tier: every offset of the header / checksum / start of the code record, then every 7th, then the tail
+            offsets = range(len(data)) if tier != "quick" else sorted(set(range(min(128, len(data)))) | set(range(128, len(data), 7))
+                                                                    | set(range(max(0, len(data) - 16), len(data))))
+            variants = [(f"truncated@{k}", data[:k]) for k in offsets] + damaged_entries(data)
             if kind != "fs":
                 variants.append(("client-returns-None", None))
             for label, bts in variants:
@@ -1919,7 +1922,7 @@ def bounded_truncation(kind):
         n, failures = truncation_run(kind, tier)
         name = f"C27.bounded.truncation[{kind}]"
         task.bound_text = (f"{'FileSystemBytecodeCache' if kind == 'fs' else 'MemcachedBytecodeCache (fake client)'}: the real stored entry of "
-                           f"{1 if tier == 'quick' else len(VERSIONS)} template(s) truncated at every byte offset plus foreign-version, stale-checksum, garbage, "
+                           f"{'1 template truncated at every byte offset below 128 and in the last 16, every 7th in between,' if tier == 'quick' else str(len(VERSIONS)) + ' templates truncated at every byte offset'} plus foreign-version, stale-checksum, garbage, "
                            f"bit-flipped and damaged-pickle variants ({n} entries), each loaded through Environment.get_template")
         task.stats = {"entries": n, "failing_classes": len(failures)}
         rs = [Res(name, "bounded-ok", "native", 0, f"{n} damaged entries, {n - sum(f['count'] for f in failures.values())} are clean misses", "bounded")]
